@@ -306,4 +306,78 @@ theorem compactLevel_wf {st st' : RState} {dst ts : Nat} {info : FileInfo} (h : 
               · exact hg
 
 
+
+theorem lastInfo_max_eq_endMax (f : FileInfo) (rest : List FileInfo) : (lastInfo f rest).max = endMax (f :: rest) := by
+  induction rest generalizing f with
+  | nil => rfl
+  | cons g t ih => exact ih g
+
+/-- A contiguous run of files covers exactly the TXIDs from its first min to its last max. -/
+theorem wf_cover {f : FileInfo} {rest : List FileInfo} (h : LevelWF (f :: rest)) (t : Nat) :
+    (f.min ≤ t ∧ t ≤ endMax (f :: rest)) ↔ ∃ g ∈ f :: rest, g.min ≤ t ∧ t ≤ g.max := by
+  induction rest generalizing f with
+  | nil =>
+    constructor
+    · intro ht; exact ⟨f, by simp, ht⟩
+    · rintro ⟨g, hg, ht⟩; simp at hg; subst hg; exact ht
+  | cons x u ih =>
+    have hx : x.min = f.max + 1 := h.2.2.1
+    have hfb := wf_head h
+    have ihx := ih (wf_tail h)
+    have hge := endMax_cons_ge (wf_tail h)
+    have hxb := wf_head (wf_tail h)
+    constructor
+    · intro ht
+      by_cases hle : t ≤ f.max
+      · exact ⟨f, by simp, ht.1, hle⟩
+      · have : x.min ≤ t ∧ t ≤ endMax (x :: u) := ⟨by omega, ht.2⟩
+        obtain ⟨g, hg, hgt⟩ := ihx.mp this
+        exact ⟨g, by simp at hg ⊢; rcases hg with h | h <;> simp [h], hgt⟩
+    · rintro ⟨g, hg, hgt⟩
+      simp only [List.mem_cons] at hg
+      rcases hg with hg | hg
+      · subst hg
+        show g.min ≤ t ∧ t ≤ endMax (x :: u)
+        omega
+      · have := ihx.mpr ⟨g, by simp; exact hg, hgt⟩
+        show f.min ≤ t ∧ t ≤ endMax (x :: u)
+        omega
+
+/-- **The output range is exactly the range of the merged sources.**  In a
+    well-formed replica, `Compactor.Compact(dst)` merges *all* source-level files
+    from the seek point on; the name range `[pk.min, pk.max]` it writes and caches
+    equals the header range `ltx.Compactor` derives from the merged inputs, and a
+    TXID lies in it iff one of the merged sources holds it. -/
+theorem pick_range_exact {st : RState} {dst : Nat} {pk : LevelPick} (h : RWF st)
+    (hp : compactPick st dst = .ok pk) :
+    pk.srcs = sources st dst ∧ pk.srcs ≠ [] ∧ LevelWF pk.srcs ∧ (pk.min, pk.max) = srcHeader pk.srcs ∧
+    ∀ t, (pk.min ≤ t ∧ t ≤ pk.max) ↔ ∃ g ∈ pk.srcs, g.min ≤ t ∧ t ≤ g.max := by
+  unfold compactPick at hp
+  by_cases hd0 : dst = 0
+  · simp [hd0] at hp
+  · simp only [hd0, if_false] at hp
+    by_cases hemp : (sources st dst).isEmpty = true
+    · simp [hemp] at hp
+    · simp only [hemp, Bool.false_eq_true, if_false, Except.ok.injEq] at hp
+      subst hp
+      simp only []
+      have hwf : LevelWF (sources st dst) := by
+        unfold sources
+        rw [seek_eq h dst]
+        by_cases hde : st.files dst = []
+        · have hall : ∀ g ∈ st.files (dst - 1), endMax (st.files dst) + 1 ≤ g.min := fun g hg => by
+            rw [hde]; exact (wf_bounds (h.wf (dst - 1)) g hg).1
+          rw [filter_all hall]; exact h.wf (dst - 1)
+        · obtain ⟨g, hg, hge⟩ := h.aligned dst (by omega) hde
+          exact (filter_after (h.wf (dst - 1)) ⟨g, hg, by rw [hge]⟩).1
+      cases hs : sources st dst with
+      | nil => rw [hs] at hemp; simp at hemp
+      | cons f t =>
+        rw [hs] at hwf
+        have hr := rangeLoop_start hwf
+        refine ⟨by first | rfl | trivial, by simp, hwf, ?_, ?_⟩
+        · rw [hr]; simp only [srcHeader]; rw [lastInfo_max_eq_endMax]
+        · intro x; rw [hr]; exact wf_cover hwf x
+
+
 end Litestream
